@@ -372,7 +372,7 @@ func (f *Frame) paramNames(fc *FuncContract, fn *ssa.Function, sig *types.Signat
 }
 
 func (f *Frame) execCall(in ssa.Instruction, c *ssa.CallCommon, reach string, st *State) (Val, string) {
-	_ = f.e
+	f.curIn = in
 	if b, ok := c.Value.(*ssa.Builtin); ok {
 		var args []Val
 		for _, a := range c.Args {
@@ -505,8 +505,8 @@ func (f *Frame) dispatchCall(key string, c *ssa.CallCommon, fnv Val, args []Val,
 func (f *Frame) pointClausesAfter(point, nreach string, st *State, args []Val, resp *Val) {
 	e := f.e
 	res := *resp
-	if f.fc != nil {
-		for name, pt := range f.fc.Binds {
+	if f.cfc() != nil {
+		for name, pt := range f.cfc().Binds {
 			if pt != point {
 				continue
 			}
@@ -700,6 +700,9 @@ func (f *Frame) inline(fn *ssa.Function, fc *FuncContract, args []Val, bindings 
 	e := f.e
 	nf := &Frame{e: e, fn: fn, fc: fc, vals: map[ssa.Value]Val{}, entrySt: f.entrySt, parent: f, bindings: bindings,
 		params: map[string]Val{}, lets: map[string]Val{}, prefix: f.prefix + "/" + shortName(fnKey(fn))}
+	if e.virtual {
+		nf.vpath = f.vpath + fmt.Sprintf("/%p", f.curIn)
+	}
 	for i, p := range fn.Params {
 		nf.vals[p] = args[i]
 		nf.params[p.Name()] = args[i]
@@ -788,7 +791,7 @@ func (f *Frame) runDefers(reach string, st *State) string {
 
 // pointClauses handles `assert at`, `ghost before/after` clauses at a call.
 func (f *Frame) pointClauses(when, point, reach string, st *State, args []Val, res *Val) {
-	if f.fc == nil || point == "" {
+	if f.cfc() == nil || point == "" {
 		return
 	}
 	e := f.e
@@ -812,7 +815,7 @@ func (f *Frame) pointClauses(when, point, reach string, st *State, args []Val, r
 		return env
 	}
 	if when == "before" {
-		for _, c := range f.fc.Asserts {
+		for _, c := range f.cfc().Asserts {
 			if c.Point != point || !f.modeOK(c) {
 				continue
 			}
@@ -824,7 +827,7 @@ func (f *Frame) pointClauses(when, point, reach string, st *State, args []Val, r
 			f.prove("assert@"+point, c.Label, reach, fm, nil, nil, "")
 		}
 	}
-	for _, g := range f.fc.Ghosts {
+	for _, g := range f.cfc().Ghosts {
 		if g.Point != when+" "+point || !f.modeOK(g) {
 			continue
 		}
